@@ -15,6 +15,9 @@ from .common import (
 
 ID = "C01"
 LEVEL = "exploration"
+MIX = True  # a share of the decodes goes through the other front ends and byte sources (context.py)
+HISTORY = True  # every second shard first runs a prelude of earlier library use (history.py)
+OLANE = True  # two more shards run in an interpreter started with -O (runner.start_olane)
 RULE = (
     "hypothesis-generated well-formed encodings built from the pinned layout snapshot: a deterministic coverage pass "
     "over all 231 non-union structure types and 117 command codes x {command, response} x {no sessions, 1, 2, 3 sessions, "
